@@ -65,6 +65,14 @@ fn start_with_connection(connection: Connection, project: LspProject) -> Result<
     }
 }
 
+#[cfg(feature = "verif")]
+pub(crate) fn verif_start_with_connection(
+    connection: Connection,
+    project: LspProject,
+) -> Result<(), String> {
+    start_with_connection(connection, project)
+}
+
 struct LspServer<'a> {
     sender: &'a Sender<Message>,
     project: LspProject,
